@@ -32,25 +32,52 @@ def parse_header(inp):
     return toks[1], shapes, codes
 
 
-def is_wrapped(shape):
-    return re.fullmatch(r"A\([^,()]+\)", shape) is not None
+def is_nested_single(shape):
+    """[[a]]: a one-element array whose element is a one-element array of an atom"""
+    return re.fullmatch(r"A\(A\([^,()]+\)\)", shape) is not None
 
 
-def has_char_array(shape):
-    return shape.startswith("A(") and re.search(r"[(,]C", shape) is not None
+def split_lm(obs):
+    """Take the lm= field (what the range macro bound) out of an observation."""
+    m = re.search(r";lm=([^;]*)", obs)
+    if not m:
+        return obs, None
+    return obs[:m.start()] + obs[m.end():], m.group(1)
+
+
+def stale_key_pattern(impl_lm, spec_lm):
+    """The range macro's key variable kept an earlier key of ANOTHER type (mdef ignores the
+    'cannot assign' error of the typed rebinding); values and length agree with the content."""
+    if impl_lm in ("!", "#") or spec_lm in ("!", "#"):
+        return False
+    a = [p.split("=") for p in impl_lm.split("|")] if impl_lm else []
+    b = [p.split("=") for p in spec_lm.split("|")] if spec_lm else []
+    if len(a) != len(b) or any(len(p) != 2 for p in a + b):
+        return False
+    stale = False
+    for i, (x, y) in enumerate(zip(a, b)):
+        if x[1] != y[1]:
+            return False
+        if x[0] == y[0]:
+            continue
+        # stale = the previous binding; the rejected key has another type (arrays are typed by their elements)
+        if i == 0 or x[0] != a[i - 1][0] or (x[0][0] == y[0][0] and x[0][0] != "A"):
+            return False
+        stale = True
+    return stale
 
 
 def main(argv):
     c = Check("C14", argv)
     c.proofs()
     c.trusted_base([
-        "Blake2b hashing of array keys is not modelled (the theorems hold for an arbitrary array hash; the runner uses the real codes reported by the harness)",
+        "Blake2b hashing of array keys is not modelled (the theorems hold for an ARBITRARY hash of non-atom keys, with no assumption relating it to Compare; the runner uses the real codes reported by the harness)",
         "rendering of a key inside (str h)/(json h) is taken from the real SexpString of that key (the property is about content and order, not about spelling)",
         "CloneFrom/CopyMap (shallow copies sharing bucket slices), records with a TypeName other than hash, pretty printing, msgpack/togo encodings are outside the model",
         "values reach the builtins through AddGlobal/Apply/EvalString (the literal reader is C12/C13's subject)",
     ])
     c.assumptions += [
-        "key identity is the implementation's: env.Compare returns 0 without error (checked against the model's keq on every pair of universe keys at each run)",
+        "key identity is the implementation's: same hash code and env.Compare returns 0 without error (Compare is checked against the model's ceq on every pair of universe keys at each run)",
         "hash codes of atoms are int(value) / symbol number / FNV-1 32 of the string (checked against the real HashExpression on the universe keys at each run)",
     ]
     cases = c.harness("c14")
@@ -70,64 +97,52 @@ def main(argv):
                     m = re.match(r"eq=([01]*);", impl)
                     eq = m.group(1) if m else ""
                     k = len(shapes)
-                    incompat = set()
-                    bad_ok = []
-                    for i in range(k):
-                        for j in range(k):
-                            if len(eq) == k * k and eq[i * k + j] == "1" and codes[i] != codes[j]:
-                                incompat.add(i)
-                                incompat.add(j)
-                                if not has_char_array(shapes[i]) and not has_char_array(shapes[j]):
-                                    bad_ok.append((shapes[i], shapes[j]))
-                    uni[uid] = {"shapes": shapes, "wrapped": {i for i, s in enumerate(shapes) if is_wrapped(s)},
-                                "incompat": incompat, "header": inp}
+                    uni[uid] = {"shapes": shapes, "nested": {i for i, s in enumerate(shapes) if is_nested_single(s)},
+                                "header": inp}
                     if impl != model:
                         corr_fail.append({"input": inp, "implementation": impl, "model": model,
                                           "what": "key identity (Compare = 0) or atom hash codes differ from the model's keq / ahash"})
-                    if bad_ok:
-                        corr_fail.append({"input": inp, "what": "hypothesis of the theorems fails on the universe: keys without a char inside an array compare equal but have different hash codes", "pairs": bad_ok[:5]})
                     continue
                 nhist += 1
-                if impl == spec:
-                    if impl != model:
+                toks = inp.split()
+                u = uni.get(toks[1], {"nested": set(), "header": ""})
+                ops = toks[2:]
+                # the key variable of the range macro is compared separately (lm field)
+                impl0, impl_lm = split_lm(impl)
+                model0, model_lm = split_lm(model)
+                spec0, spec_lm = split_lm(spec)
+                lm_stale = impl_lm is not None and impl_lm != spec_lm and stale_key_pattern(impl_lm, spec_lm)
+                if lm_stale:
+                    impl_lm = spec_lm          # judged below as a listed finding
+                if impl0 == spec0 and impl_lm == spec_lm:
+                    if impl0 != model0 or model_lm != spec_lm:
                         corr_fail.append({"input": inp, "implementation": impl, "model": model, "specification": spec})
+                    elif lm_stale:
+                        if c.known_finding("range-macro-stale-key", inp):
+                            known["range-macro-stale-key"] = known.get("range-macro-stale-key", 0) + 1
+                        else:
+                            prop_fail.append({"universe_header": u["header"], "input": inp, "implementation": impl,
+                                              "specification": spec, "model": model, "differing_fields": ["lm"], "nops": len(ops)})
                     continue
                 # the implementation differs from the ordered-map specification
-                toks = inp.split()
-                u = uni.get(toks[1], {"wrapped": set(), "incompat": set(), "header": ""})
-                ops = toks[2:]
-                a, b = fields(impl), fields(spec)
+                a, b = fields(impl0), fields(spec0)
                 diff = {k for k in set(a) | set(b) if a.get(k) != b.get(k)}
+                if impl_lm != spec_lm:
+                    diff.add("lm")
                 rec = {"universe_header": u["header"], "input": inp, "implementation": impl, "specification": spec,
                        "model": model, "differing_fields": sorted(diff), "nops": len(ops)}
-                if impl != model:
-                    prop_fail.append(rec)
-                    continue
-                # the Coq model of the code predicts this deviation: it must be one of the listed findings
-                explained = set()
-                used = []
-                dels = {int(o[1:]) for o in ops if o[0] == "d"}
-                touched = {int(re.match(r"[sd](\d+)", o).group(1)) for o in ops}
-                if "str" in diff and a.get("str") == "}" and b.get("str") == "{}":
-                    explained.add("str")
-                    used.append("str-after-emptying")
-                if dels & u["wrapped"]:
-                    explained |= set(FIELDS)
-                    used.append("array1-key-not-unwrapped")
-                elif "getd" in diff:
-                    ga, gb = a.get("getd", "").split(","), b.get("getd", "").split(",")
-                    if len(ga) == len(gb) and all(x == y or (i in u["wrapped"] and x == "D") for i, (x, y) in enumerate(zip(ga, gb))):
-                        explained.add("getd")
-                        used.append("array1-key-not-unwrapped")
-                if touched & u["incompat"]:
-                    explained |= set(FIELDS)
-                    used.append("array-keys-equal-but-hashed-apart")
-                if diff <= explained and used:
-                    ok = True
-                    for fid in used:
-                        if not c.known_finding(fid, inp):
-                            ok = False
-                    if ok:
+                # a listed finding explains it only if the Coq model of the code predicts exactly this observation
+                raw_lm = split_lm(impl)[1]
+                lm_stale_m = raw_lm is not None and raw_lm != model_lm and stale_key_pattern(raw_lm, model_lm)
+                predicted = impl0 == model0 and (raw_lm == model_lm or lm_stale_m)
+                sets = {int(o[1:].split("=")[0]) for o in ops if o[0] == "s"}
+                nested_read_only = False
+                if diff == {"get"}:
+                    ga, gb = a.get("get", "").split(","), b.get("get", "").split(",")
+                    nested_read_only = len(ga) == len(gb) and all(x == y or i in u["nested"] for i, (x, y) in enumerate(zip(ga, gb)))
+                if predicted and ((sets & u["nested"]) or nested_read_only):
+                    used = ["nested-one-element-array-key"] + (["range-macro-stale-key"] if (lm_stale or lm_stale_m) else [])
+                    if all(c.known_finding(fid, inp) for fid in used):
                         for fid in used:
                             known[fid] = known.get(fid, 0) + 1
                         continue
